@@ -1,7 +1,6 @@
 (* C11 — comparison functions for the generated correspondence files *)
 From Coq Require Import List NArith ZArith Bool String Ascii.
 From T4V Require Import Base.Str Base.Cases C11.Model C11.Regex.
-From T4V Require C11.LinkC15.
 Import ListNotations.
 
 Fixpoint ast_eqb (a b : ast) : bool :=
@@ -48,7 +47,7 @@ Definition check_loop (c : list (N * cell) * res (list (N * ast))) : bool :=
 
 (* cellcard.split: (card text, (geometry, options) or the exception) *)
 Definition check_split (c : string * res (string * string)) : bool :=
-  match LinkC15.split_card_full (fst c), snd c with
+  match split_card (fst c), snd c with
   | Ok (g, o), Ok (g', o') => String.eqb g g' && String.eqb o o'
   | Err x, Err y => err_eqb x y
   | _, _ => false
